@@ -224,19 +224,21 @@ fn encode_seqnum(seqnum: usize, writer: &mut BitWriter<impl AsMut<Vec<u8>>>) {
     const UPPER_LIMIT: usize = 0xFFFF + 0x7F00;
     match seqnum {
         1..=127 => writer.write_bits(seqnum as u32, 8),
-        128..=0x7FFF => {
+        // The two byte form can only express counts up to 0x7EFF: a first byte of 255 selects the three byte form
+        128..=0x7EFF => {
             let upper = ((seqnum >> 8) | 0x80) as u8;
             let lower = seqnum as u8;
             writer.write_bits(upper, 8);
             writer.write_bits(lower, 8);
         }
-        0x8000..=UPPER_LIMIT => {
+        0x7F00..=UPPER_LIMIT => {
+            // Number_of_Sequences = byte1 + (byte2 << 8) + 0x7F00
             let encode = seqnum - 0x7F00;
             let upper = (encode >> 8) as u8;
             let lower = encode as u8;
             writer.write_bits(255u8, 8);
-            writer.write_bits(upper, 8);
             writer.write_bits(lower, 8);
+            writer.write_bits(upper, 8);
         }
         _ => unreachable!(),
     }
